@@ -181,6 +181,8 @@ def build(cfg, start, prods, smart, skip=_NO_SKIP_ARG):
     productions = {x: (impl.ProdSequence(*alts[1:]) if is_seq(alts) else [a if a else None for a in alts])
                    for x, alts in prods}
     kw = {} if skip is _NO_SKIP_ARG else {"skip_tokens": skip_value(skip)}
+    if getattr(cfg, "span_matchers", None):
+        kw["span_matchers"] = dict(cfg.span_matchers)
     try:
         p = impl.LLParser(cfg.tokenizer_str, productions=productions, synonyms=cfg.synonyms,
                           keywords=cfg.keywords, start_symbol_name=start, smart_factorization=smart, **kw)
